@@ -71,10 +71,12 @@ impl ZoneCursor {
         let idx = self.pos;
         self.pos += 1;
 
+        // A zone in which no event carried an optional field has no block for that
+        // column (empty vector): the row simply lacks the field, i.e. it is null.
         let payload: HashMap<String, ScalarValue> = self
             .payload_fields
             .iter()
-            .map(|(k, v)| (k.clone(), v[idx].clone()))
+            .filter_map(|(k, v)| v.get(idx).map(|val| (k.clone(), val.clone())))
             .collect();
 
         if tracing::enabled!(tracing::Level::TRACE) {
